@@ -277,6 +277,48 @@ example :
     isComplete (G exM 6) (rootView exSd [] [1, 5, 0, 9]) = true := by
   decide
 
+/-- The hypothesis `moduleWF` of the monotonicity theorems, as two decidable properties of the IR
+that the driver evaluates on **every real IR** (`IR` answer: `wf= csm= dyn=`):
+`moduleConstMatch` — a constant-size field holding a fixed-size bit-addressed type (prelude
+scalar, enum, `bits`: fixed size ≤ 64 bits by C14's checks) has exactly the type's size — is what
+the front end's `constraints.py` enforces (C14 model: `fixedWrongField`), and the harness requires
+it of every accepted module; `moduleNoDynFixed` — no such type sits in a field whose size is not a
+compile-time constant — is **not** enforced by the front end: that gap is exactly the open
+finding `monotone:fixed-size-type-in-dynamically-sized-field`
+(`C01_prefix_monotone_counterexample`), and the harness accepts `dyn=0` only for modules in which
+its independent IR walk finds such a field. -/
+theorem C01_moduleWF_iff (m : Module) :
+    moduleWF m = true ↔ (moduleConstMatch m = true ∧ moduleNoDynFixed m = true) := by
+  have hfield : ∀ unit f, fieldWF m unit f = (fieldConstMatch m unit f && fieldNoDynFixed m unit f) := by
+    intro unit f
+    unfold fieldWF fieldConstMatch fieldNoDynFixed fixedBitsIn
+    cases f.kind with
+    | alias t => rfl
+    | virt a b => rfl
+    | phys start size ty bo =>
+      cases ty with
+      | array a b => rfl
+      | scalar k bits req =>
+        by_cases hu : unit = 8
+        · cases hc : constInt? size <;> simp [hu, hc]
+        · simp [hu]
+      | struct name bits args =>
+        by_cases hu : unit = 8
+        · cases hfind : m.find name with
+          | none => simp [hu, hfind]
+          | some sd =>
+            by_cases hu' : sd.unit = 8
+            · simp [hu, hu', hfind]
+            · cases hc : constInt? size <;> simp [hu, hu', hfind, hc]
+        · simp [hu]
+  simp only [moduleWF, structWF, moduleConstMatch, moduleNoDynFixed, List.all_eq_true, hfield,
+    Bool.and_eq_true]
+  constructor
+  · intro h
+    exact ⟨fun sd hsd f hf => (h sd hsd f hf).1, fun sd hsd f hf => (h sd hsd f hf).2⟩
+  · intro ⟨h1, h2⟩ sd hsd f hf
+    exact ⟨h1 sd hsd f hf, h2 sd hsd f hf⟩
+
 /-- non-vacuity of `C01_ok_monotone_arrays_partial`: the example (which has a dynamically sized
 array) satisfies `SizeCovers`, is Ok on `01 05 00 09` and stays Ok with more bytes. -/
 example : SizeCovers exM exSd :=
@@ -629,6 +671,13 @@ theorem C01_prefix_monotone_counterexample :
     moduleWF cexM = false ∧
     (G cexM 4).read (rootView cexSd [] [5, 7]) ["x"] = some (.int 7) ∧
     (G cexM 4).read (rootView cexSd [] ([5, 7] ++ [9])) ["x"] = none := by
+  decide
+
+/-- non-vacuity of `C01_moduleWF_iff`: C01's example module satisfies both parts; the
+counterexample of the open finding satisfies the part the front end enforces and fails only the
+other one. -/
+example : moduleConstMatch exM = true ∧ moduleNoDynFixed exM = true ∧
+    moduleConstMatch cexM = true ∧ moduleNoDynFixed cexM = false := by
   decide
 
 end Emboss.View
